@@ -73,6 +73,13 @@ func lenRoot(v ssa.Value) ssa.Value {
 			} else {
 				return v
 			}
+		case *ssa.UnOp:
+			// a variable kept in a cell (captured by a closure): the load is the one value that can reach it
+			if rv := reachingStore(x); rv != nil {
+				v = rv
+			} else {
+				return v
+			}
 		default:
 			return v
 		}
@@ -1706,4 +1713,95 @@ func (c *Ctx) nonNilError(v ssa.Value, depth int) bool {
 		return true
 	}
 	return false
+}
+
+// reachingStore: ld loads a local cell (an Alloc); if exactly one store of the function into that cell can reach the
+// load along the control-flow graph, the value it stored is what the load yields. (A closure that writes the cell
+// through its free variable makes the question open: nil.)
+func reachingStore(ld *ssa.UnOp) ssa.Value {
+	al, ok := ld.X.(*ssa.Alloc)
+	if !ok || ld.Op != token.MUL || al.Referrers() == nil {
+		return nil
+	}
+	var stores []*ssa.Store
+	for _, r := range *al.Referrers() {
+		switch x := r.(type) {
+		case *ssa.Store:
+			if x.Addr == ssa.Value(al) {
+				stores = append(stores, x)
+			} else {
+				return nil // the address itself is stored somewhere
+			}
+		case *ssa.UnOp:
+		case *ssa.MakeClosure:
+			// captured: the closure must not write it
+			fn, _ := x.Fn.(*ssa.Function)
+			if fn == nil {
+				return nil
+			}
+			for i, b := range x.Bindings {
+				if b != ssa.Value(al) || i >= len(fn.FreeVars) {
+					continue
+				}
+				if fv := fn.FreeVars[i]; fv.Referrers() != nil {
+					for _, fr := range *fv.Referrers() {
+						if st, isSt := fr.(*ssa.Store); isSt && st.Addr == ssa.Value(fv) {
+							return nil
+						}
+						if _, isLd := fr.(*ssa.UnOp); !isLd {
+							if _, isSt := fr.(*ssa.Store); !isSt {
+								return nil
+							}
+						}
+					}
+				}
+			}
+		default:
+			return nil
+		}
+	}
+	// which stores can reach the load?
+	lb := ld.Block()
+	reach := func(st *ssa.Store) bool {
+		sb := st.Block()
+		if sb == lb {
+			for _, in := range sb.Instrs {
+				if in == ssa.Instruction(st) {
+					return true // earlier in the same block
+				}
+				if in == ssa.Instruction(ld) {
+					break
+				}
+			}
+		}
+		seen := map[*ssa.BasicBlock]bool{}
+		work := append([]*ssa.BasicBlock{}, sb.Succs...)
+		for len(work) > 0 {
+			b := work[len(work)-1]
+			work = work[:len(work)-1]
+			if seen[b] {
+				continue
+			}
+			seen[b] = true
+			if b == lb {
+				return true
+			}
+			work = append(work, b.Succs...)
+		}
+		return false
+	}
+	var only *ssa.Store
+	for _, st := range stores {
+		if reach(st) {
+			if only != nil {
+				// two stores on the way: the later one in the same block wins only in straight-line code; keep it simple
+				return nil
+			}
+			only = st
+		}
+	}
+	if only == nil {
+		return nil
+	}
+	return only.Val
 }
